@@ -328,6 +328,9 @@ def run(chk, b, tier):
     chk.sample({"argv": results[5][1], "result": results[5][0]})
     chk.sample({"argv": results[-1][1], "result": results[-1][0]})
 
+    for seq in ([], [["--include", "@mygroup"], ["--exclude", "refs/heads/foo"]], [["--branches"], ["--exclude", "@proj.rel"]]):
+        R.fault_probe(chk, "C06", sz, repoA, ["--json", "--no-progress"] + [a for o in seq for a in o], rng, b.shimdir(), tmp,
+                      n=4 if tier == "quick" else 30)
     # random refgroup forests x @group options
     nf = 40 if tier == "quick" else 600
     fres = R.pmap(forest_case, [(R.SEED, i, sz, scratch) for i in range(nf)], chk=chk)
